@@ -63,6 +63,7 @@ type Struct[T any, G StructProcesor[T]] struct {
 	value                        T
 	err                          error
 	depVersions                  []int
+	depUnread                    []bool
 	inputChangedSinceLastProcess bool
 
 	version int
@@ -112,6 +113,12 @@ func (sn Struct[T, G]) Outdated() bool {
 	}
 
 	for i, nodeDep := range deps {
+		// Our last execution never evaluated this dependency, so the value
+		// we hold can not depend on it
+		if sn.depUnread[i] {
+			continue
+		}
+
 		dep := nodeDep.Dependency()
 		if dep.Version() != sn.depVersions[i] || dep.State() != Processed {
 			return true
@@ -124,8 +131,15 @@ func (sn Struct[T, G]) Outdated() bool {
 func (sn *Struct[T, G]) updateUsedDependencyVersions() {
 	deps := sn.Dependencies()
 	sn.depVersions = make([]int, len(deps))
+	sn.depUnread = make([]bool, len(deps))
 	for i, dep := range deps {
 		sn.depVersions[i] = dep.Dependency().Version()
+
+		// Reading a dependency processes it: one that is still stale right
+		// after we processed was not read (Process() returned early or reads
+		// it conditionally). Without remembering that, such a dependency
+		// would keep us outdated forever.
+		sn.depUnread[i] = dep.Dependency().State() != Processed
 	}
 }
 
